@@ -181,7 +181,8 @@ func (runInfo *runInfoStruct) invokeMapExpr(expr *ast.MapExpr) {
 			if runInfo.err != nil {
 				return
 			}
-			key = runInfo.rv
+			// the key is a value by now: the value expression may replace the slot it was read from
+			key = unalias(runInfo.rv)
 			if !isHashable(key) {
 				runInfo.err = newStringError(expr, "type "+hashableTypeString(key)+" cannot be used as map key")
 				runInfo.rv = nilValue
@@ -227,7 +228,7 @@ func (runInfo *runInfoStruct) invokeMapExpr(expr *ast.MapExpr) {
 		if runInfo.err != nil {
 			return
 		}
-		key, runInfo.err = convertReflectValueToType(runInfo.rv, keyType)
+		key, runInfo.err = convertReflectValueToType(unalias(runInfo.rv), keyType)
 		if runInfo.err != nil {
 			runInfo.err = newStringError(expr, "cannot use type "+key.Type().String()+" as type "+keyType.String()+" as map key")
 			runInfo.rv = nilValue
